@@ -127,8 +127,12 @@ func (c WTLengthSliceWrapper) Read(data []byte, ptr unsafe.Pointer, wt plenccore
 
 	// First we read the number of items in the slice
 	count, n := plenccore.ReadVarUint(data)
-	if n < 0 {
+	if n < 0 || (n == 0 && len(data) != 0) {
 		return 0, fmt.Errorf("corrupt data looking for WTSlice count")
+	}
+	// Every entry takes at least one byte for its length
+	if count > uint64(len(data)-n) {
+		return 0, fmt.Errorf("WTSlice count %d exceeds data length", count)
 	}
 
 	// Now make sure we have enough capacity in the slice
@@ -156,6 +160,9 @@ func (c WTLengthSliceWrapper) Read(data []byte, ptr unsafe.Pointer, wt plenccore
 			return 0, fmt.Errorf("invalid varint for slice entry %d", i)
 		}
 		offset += n
+		if s > uint64(len(data)-offset) {
+			return 0, fmt.Errorf("length %d of slice entry %d exceeds data length", s, i)
+		}
 
 		ptr := unsafe.Add(h.Data, i*int(c.EltSize))
 		n, err := c.Underlying.Read(data[offset:offset+int(s)], ptr, plenccore.WTLength)
@@ -306,7 +313,7 @@ func (c WTVarIntSliceWrapper) Read(data []byte, ptr unsafe.Pointer, wt plenccore
 	var offset, count int
 	for offset < len(data) {
 		_, n := plenccore.ReadVarUint(data[offset:])
-		if n < 0 {
+		if n <= 0 {
 			return 0, fmt.Errorf("corrupt data")
 		}
 		offset += n
